@@ -64,7 +64,7 @@ macro_rules! checks {
     ($mac:ident) => {
         $mac!(
             ("C08", mchecks::C08),
-            ("C09", runner::Both { id: "C09", a: mchecks::C09, b: pairs::C09S, a_share: 6, rule: "Arm A (6/8): non-strict machine in lockstep with RefLc3 — adversarial user-mode blocks aiming LD/ST/LDI/STI (pointer and target)/LDR/STR/JMP/JSRR/BR/fall-through fetch/TRAP pointers/RTI at every boundary address (x0000,x01FF,x0200,x2FFF,x3000,xFDFF,xFE00..xFE06,xFFFC,xFFFE,xFFFF, recording-device ports) and random ones, code placed at x3000.. or ending at xFDFF, real and virtual traps, interrupts alternating the mode, ignore_privilege flipped by the host, control arm with checks off; monitored at every step whose pre-state is user mode with checks on: violation reported exactly when the model says so, no device reached (device log), keyboard queue/PSR/MCR unchanged, observer shows nothing outside user space, memory outside user space unchanged (touched-set + full sweeps); the mode RTI returns to is part of the oracle. Arm B (2/8): the same scenarios on twin machines differing only in flags.strict: a step the non-strict twin refuses is refused identically by the strict twin (a Strict* error may replace it only when raised before the access: StrictMemAddrUninit, StrictPCCurrUninit), the strict twin reaches no device the non-strict twin did not, buffers equal, memory equal after each refused step. Non-trivial: >=1 refused and >=1 permitted access (A), >=1 refused access with both twins in sync (B)." }),
+            ("C09", runner::Both { id: "C09", a: runner::Both { id: "C09", a: mchecks::C09, b: pairs::C09S, a_share: 6, rule: "" }, b: pairs::C09R, a_share: 7, rule: "Arm A (6/8 of all runs): non-strict machine in lockstep with RefLc3 — adversarial user-mode blocks aiming LD/ST/LDI/STI (pointer and target)/LDR/STR/JMP/JSRR/BR/fall-through fetch/TRAP pointers/RTI at every boundary address (x0000,x01FF,x0200,x2FFF,x3000,xFDFF,xFE00..xFE06,xFFFC,xFFFE,xFFFF, recording-device ports) and random ones, code placed at x3000.. or ending at xFDFF, real and virtual traps, interrupts alternating the mode, ignore_privilege flipped by the host, control arm with checks off; monitored at every step whose pre-state is user mode with checks on: violation reported exactly when the model says so, no device reached (device log), keyboard queue/PSR/MCR unchanged, observer shows nothing outside user space, memory outside user space unchanged (touched-set + full sweeps); the mode RTI returns to is part of the oracle. Arm B (1/8): the same scenarios on twin machines differing only in flags.strict: a step the non-strict twin refuses is refused identically by the strict twin (a Strict* error may replace it only when raised before the access: StrictMemAddrUninit, StrictPCCurrUninit), the strict twin reaches no device the non-strict twin did not, buffers equal, memory equal after each refused step. Non-trivial: >=1 refused and >=1 permitted access (A), >=1 refused access with both twins in sync (B). Arm C (1/8 of all runs): the same blocks under run() with breakpoints on and around the attacking instructions, resumed after every breakpoint stop, next to a twin driven by step_in: a violation the stepped twin reports must end the run-style history with the same error at the same instruction and the same registers and supervisor/I-O memory." }),
             ("C10", runner::Both { id: "C10", a: mchecks::C10A, b: pairs::C10B, a_share: 7, rule: "Arm A (7/8 of runs): gate/entry invariants in lockstep with RefLc3 — 1-4 competing scripted sources (edge and level), real keyboard interrupts (IE set by the host) and a real seeded timer over soup and structured workloads; every step either enters exactly one interrupt (only if max pending priority > PSR priority, vector from the highest-priority tie set, old PSR/PC pushed on the supervisor stack, R6/saved-SP swap, PSR privilege and priority) or executes exactly one instruction; non-trivial: >=1 interrupt taken. Arm B (1/8): transparency — see its own rule in DESIGN.md §6 C10: exhaustive placements of up to two interrupts over short programs, sampled placements over long ones, final state equals the uninterrupted run." }),
             ("C11", pairs::C11),
             ("C12", pairs::C12),
